@@ -362,7 +362,15 @@ func roundLenOf(p *Prog, name string) (int64, string) {
 	if !ok || !isZero(off) {
 		return 0, p.Pos(fn.Pos())
 	}
-	v, _ := intOf(ln)
+	v, isC := intOf(ln)
+	if !isC && ln.Op == "len" && len(ln.Args) == 1 && ln.Args[0].Op == "at" && len(ln.Args[0].Args) == 1 {
+		// sized from the registry itself: the registry is a literal that is never written (R-REGISTRY)
+		if r := ln.Args[0].Args[0]; r.K == KSym && r.Sym.Kind == SGlobal && r.Sym.Canon == pkgRoot+".TestMethodArr" {
+			if lit := p.GlobalLit(pkgRoot, "TestMethodArr"); lit != nil {
+				v = int64(len(lit.Elems))
+			}
+		}
+	}
 	return v, p.Pos(fn.Pos())
 }
 
